@@ -159,7 +159,8 @@ var features = []feature{
 // Witnesses of findings.  The first four were repaired in /repo (4582d68: nil arguments object of a function
 // stash; 1f3ee72: eval intrinsic looked up through the global property): they are ordinary features now, mixed
 // freely into histories (init below), and still run first on every run as regression cases that expect an
-// equivalent, independent copy.  The last one (f.caller) is the pinned witness of the open finding class 3.
+// equivalent, independent copy.  The last one (f.caller through the getter shared with copies) was repaired by
+// b9d7aab and is treated the same way; its observation 201 stays a separate regression observation.
 var (
 	defArgParam = feature{name: "argparam", code: 101,
 		setup: []string{`function pa$(arguments){ var held = {v: arguments}; return {f: function(){ return 1 }, get: function(){ return arguments + ':' + held.v }, set: function(v){ arguments = v; held.v = v }} }; var pa$o = pa$(1), pa$f = pa$o.f;`},
@@ -175,11 +176,15 @@ var (
 	defEvalSwap = feature{name: "evalswap", code: 103, setup: []string{`var e$ = eval; eval = parseInt; var evx$ = 'global';`},
 		muts: []string{`eval = e$`, `eval = parseInt`, `evx$ = 'global2'`, `eval = Math.abs`},
 		q:    []string{`typeof eval + eval('12px')`, `(function(){ var saved = eval; try { eval = e$; return (function(){ var evx$ = 'local'; return eval('evx$') })() } catch (e) { return 'E:' + e.name } finally { eval = saved } })()`, `e$('evx$')`}}
-	defCaller = feature{name: "caller", code: 104, setup: []string{`function cf$(){ return cf$.caller === cg$ }; function cg$(){ return cf$() }`}, q: []string{`typeof cf$`}}
+	defCaller = feature{name: "caller", code: 104,
+		setup: []string{`function cf$(){ return cf$.caller === cg$ }; function cg$(){ return cf$() }`,
+			`function who$(){ return who$.caller && who$.caller.name }; function ca$(){ return who$() }; var cb$ = ca$.bind(null); var co$ = {m: function viaMethod(){ return who$() }}; function deep$(n){ return n ? deep$(n - 1) : who$() }`},
+		muts: []string{`ca$ = function replaced(){ return who$() }`, `co$.m = ca$`, `cg$ = function(){ return cf$() }`, `who$.tag = 1`, `cb$ = cb$.bind(null)`},
+		q:    []string{`String(cg$())`, `[ca$(), cb$(), String(who$()), co$.m(), deep$(3), (function anon(){ return who$() })(), [1].map(function cbk(){ return who$() })[0]].join()`, `(function(){ var d = Object.getOwnPropertyDescriptor(who$, 'caller'); return typeof d.get + typeof d.set + d.enumerable + d.configurable })()`}}
 )
 
 func init() {
-	features = append(features, defArgParam, defEvalGone1, defEvalGone2, defEvalSwap)
+	features = append(features, defArgParam, defEvalGone1, defEvalGone2, defEvalSwap, defCaller)
 }
 
 // always-on observation: every intrinsic the runtime record points to (rt.global.*Prototype, constructors,
@@ -239,8 +244,6 @@ const dumperSrc = `var __dump = (function(global){
       var proto = gPO(o), names = gOPN(o), props = [];
       var protoId = proto === null ? -1 : id(proto);
       for (var j = 0; j < names.length; j++) {
-        // getOwnPropertyDescriptor(f, 'caller') escapes as a Go panic on this interpreter (a C07 matter): not asked
-        if (isFn && names[j] === 'caller') { props.push([names[j], 2, 0, '', '']); continue }
         var d = gOPD(o, names[j]);
         if (!d) { props.push([names[j], 2, 0, '', '']); continue }
         var mode = (d.writable ? 4 : 0) | (d.enumerable ? 2 : 0) | (d.configurable ? 1 : 0);
@@ -382,7 +385,7 @@ func (p picked) qexpr() string {
 
 func runC17(env *Env) {
 	env.Import = "Otto.C17.Corr"
-	env.Rule = "scenario = setup history H (2-6 feature instances out of 22 kinds: closures sharing stashes, nested scopes, prototype chains, accessors, attributes and order, frozen/sealed, bound functions, arguments aliasing, modified built-ins, Date/RegExp/wrapper objects, arrays, with/catch/named-function scopes, cycles, sharing of one object of every class through several paths, global bindings, stateful getters, deletable/immutable scope bindings, host configuration (stack limit, random source, debugger handler, call.Otto), closures of functions with a parameter named arguments, global eval deleted / rebound to a primitive / to another function; run as separate programs and cross-linked), Copy(), then 2-7 rounds each mutating one runtime (original, copy, copy of copy, later copy) or taking a further copy; after every round every runtime is compared with its replica on all observation programs and on a script dump of its user heap; non-trivial = distinct scenario with at least one mutation round and at least 3 feature kinds, or a heap-dump case"
+	env.Rule = "scenario = setup history H (2-6 feature instances out of 23 kinds: closures sharing stashes, nested scopes, prototype chains, accessors, attributes and order, frozen/sealed, bound functions, arguments aliasing, modified built-ins, Date/RegExp/wrapper objects, arrays, with/catch/named-function scopes, cycles, sharing of one object of every class through several paths, global bindings, stateful getters, deletable/immutable scope bindings, host configuration (stack limit, random source, debugger handler, call.Otto), closures of functions with a parameter named arguments, global eval deleted / rebound to a primitive / to another function, functions inspecting f.caller (plain, bound, method, recursive, callback); run as separate programs and cross-linked), Copy(), then 2-7 rounds each mutating one runtime (original, copy, copy of copy, later copy) or taking a further copy; after every round every runtime is compared with its replica on all observation programs and on a script dump of its user heap; non-trivial = distinct scenario with at least one mutation round and at least 3 feature kinds, or a heap-dump case"
 	pinned := []feature{defArgParam, defEvalGone1, defEvalGone2, defEvalSwap, defCaller}
 	const batch = 64
 	for base := 0; env.Count() < env.N; base += batch {
